@@ -13,6 +13,7 @@ _cache = {}
 CHEMICAL_SPECS = {
     'Water': {}, 'Ethanol': {}, 'Methanol': {}, 'Glycerol': {'phase': 'l'},
     'N2': {'phase': 'g'}, 'CO2': {'phase': 'g'}, 'Glucose': {'phase': 's'}, 'Octane': {},
+    'Methane': {'phase': 'g'},
 }
 
 PACKAGES = {
@@ -32,9 +33,13 @@ PACKAGES = {
           {'Alcohols': (['Methanol', 'Ethanol'], [0.4, 0.6], False),
            'Sugary': (['Glucose', 'Water'], [0.25, 0.75], True)}),
     'C': (['Ethanol', 'Water'], {}, {}),
+    # gases under an equation-of-state mixture (Peng-Robinson): the mixture object carries per-call argument
+    # state (_free_energy_args) that an IdealMixture does not have.  Gas-phase single streams only (C02).
+    'E': (['N2', 'CO2', 'Methane'], {}, {}),
 }
+EOS_PACKAGES = {'E'}
 # receiver package -> packages whose chemicals it contains
-SUBPACKAGES = {'A': ['A', 'A2', 'B', 'C'], 'A2': ['A2', 'A', 'B', 'C'], 'B': ['B', 'C'], 'C': ['C']}
+SUBPACKAGES = {'A': ['A', 'A2', 'B', 'C'], 'A2': ['A2', 'A', 'B', 'C'], 'B': ['B', 'C'], 'C': ['C'], 'E': ['E']}
 
 
 class Package:
@@ -48,13 +53,17 @@ class Package:
         self.ids = list(ids)
         self.n = len(ids)
         self.chemicals = tmo.Chemicals(chems)
-        self.thermo = tmo.Thermo(self.chemicals)
+        if pid in EOS_PACKAGES:
+            self.thermo = tmo.Thermo(self.chemicals, mixture=tmo.PRMixture.from_chemicals(self.chemicals))
+        else:
+            self.thermo = tmo.Thermo(self.chemicals)
         self.compiled = self.thermo.chemicals
         for alias, cid in aliases.items():
             self.compiled.set_alias(cid, alias)
         for g, (gids, comp, wt) in groups.items():
             self.compiled.define_group(g, gids, composition=comp, wt=wt)
-        faults.wrap_mixture(self.thermo.mixture)
+        if pid not in EOS_PACKAGES:
+            faults.wrap_mixture(self.thermo.mixture)      # S2 seams need assignable model slots (IdealMixture)
         self.pos = {cid: k for k, cid in enumerate(ids)}
         self.CAS = [chemical(i).CAS for i in ids]
         self.MW = np.array([chemical(i).MW for i in ids], dtype=float)
